@@ -1179,7 +1179,7 @@ fn gen_opts(rng: &mut Rng, scn: &Scn, n: usize, nlc: u32, lcs_ok: bool) -> Opts 
         }
         _ => {}
     }
-    if rng.chance(2, 5) {
+    if rng.chance(if o.ffmt != 0 { 3 } else { 2 }, 5) {
         let k = rng.range(1, 3);
         for _ in 0..k {
             o.eac.push(gen_flt(rng, necu, 0));
@@ -1279,7 +1279,7 @@ fn main() {
         }
     }
     let nscn = a.count.unwrap_or(match a.tier.as_str() {
-        "quick" => 14,
+        "quick" => 24,
         "thorough" => 170,
         _ => 400,
     });
